@@ -18,7 +18,7 @@ Init == st = SInitF(InitPrios) /\ mon = [MonInit(NMsg) EXCEPT !.hi = MaxPrio(Ini
 
 DoNext == LET r == NextF(st) IN
           /\ r.sel # 0
-          /\ st' = r.s /\ mon' = MonSelect(mon, r.sel, r.s.prio) /\ obs' = [k |-> "next", m |-> 0, a |-> 0, sel |-> r.sel]
+          /\ st' = r.s /\ mon' = MonSelect(mon, r.sel, r.s.prio, K) /\ obs' = [k |-> "next", m |-> 0, a |-> 0, sel |-> r.sel]
 DoTick == st' = TickF(st, 1) /\ mon' = mon /\ obs' = [k |-> "tick", m |-> 0, a |-> 1, sel |-> 0]
 Perturb(kind, m, a, s2) ==
   /\ st' = s2
